@@ -449,6 +449,31 @@ func nontrivialDoc(d *abs.Doc) bool {
 	return len(d.Frags) > 0
 }
 
+// nontrivialC20: an invocation under a list or an abstract type, a merged field or an argument.
+func nontrivialC20(d *abs.Doc) bool {
+	var walk func(ss []abs.Sel) bool
+	walk = func(ss []abs.Sel) bool {
+		for _, s := range ss {
+			if s.K != "field" {
+				return true
+			}
+			if len(s.Args) > 0 || s.Name == "l" || s.Name == "ll" || s.Name == "il" || s.Name == "ln" || s.Name == "i" || s.Name == "u" {
+				return true
+			}
+			if walk(s.Sel) {
+				return true
+			}
+		}
+		return false
+	}
+	for _, op := range d.Ops {
+		if walk(op.Sel) {
+			return true
+		}
+	}
+	return false
+}
+
 func builtFor(wk *worker) *abs.Built {
 	b, _ := wk.cache["built"].(*abs.Built)
 	return b
@@ -484,6 +509,7 @@ func execHandler(prop string) func(fs *flag.FlagSet) handler {
 func init() {
 	handlers["C04"] = execHandler("C04")
 	handlers["C05"] = execHandler("C05")
+	handlers["C20"] = execHandler("C20")
 	handlers["C01"] = func(fs *flag.FlagSet) handler {
 		return func(tag string, raw []byte, st *Stats, wk *worker) {
 			switch tag {
@@ -545,6 +571,10 @@ func replayExecVector(raw []byte, st *Stats, wk *worker, prop string) {
 		return
 	}
 	switch prop {
+	case "C20":
+		if nontrivialC20(&v.Doc) {
+			st.Distinct("distinct_nontrivial", pr.Text)
+		}
 	case "C05":
 		b, _ := json.Marshal(v.Runs[0].Inputs)
 		st.Distinct("distinct_nontrivial", pr.Text+string(b))
@@ -616,6 +646,31 @@ func replayExecVector(raw []byte, st *Stats, wk *worker, prop string) {
 			return
 		}
 	}
+	if prop == "C20" {
+		// reuse history: the same plan executed again for every run, in two rounds, each time
+		// with a different root value and context and with resolvers that mutate their Args map;
+		// a stale root, a shared args map or a captured context shows up in a later call
+		for round := 0; round < 2; round++ {
+			for ri := range v.Runs {
+				run := &v.Runs[ri]
+				rc := newRunFor(b, &v, v.Outs[run.Oi-1], pr)
+				tag := fmt.Sprintf("R%d_%d", round, ri)
+				root := map[string]interface{}{"__tag": tag}
+				rc.Root, rc.RootTag, rc.MutateArgs = root, tag, true
+				res, pan := guard(func() *graphql.Result {
+					return graphql.ExecutePlan(plan, graphql.ExecuteParams{Schema: b.Schema, Root: root,
+						Args: varsMap(run.Inputs), Context: abs.WithRun(context.Background(), rc)})
+				})
+				obs := projectResult(res, rc)
+				obs.Panic = pan
+				// response leaves embed the source tag: map this run's root tag back to "r"
+				obs.Data = renameRoot(obs.Data, tag)
+				if !account("ExecutePlan(reuse history)", ri, obs) {
+					return
+				}
+			}
+		}
+	}
 	if len(v.Runs) > 1 {
 		run := &v.Runs[0]
 		if !account("ExecutePlan(reuse)", 0, runPlan(b, plan, varsMap(run.Inputs), newRunFor(b, &v, v.Outs[run.Oi-1], pr))) {
@@ -626,6 +681,30 @@ func replayExecVector(raw []byte, st *Stats, wk *worker, prop string) {
 		st.Sample(map[string]interface{}{"query": pr.Text, "runs": len(v.Runs), "inputs0": v.Runs[0].Inputs,
 			"expected0": v.Runs[0].Exp.Data.Canon()})
 	}
+}
+
+// renameRoot rewrites string leaves "<tag>..." to "r..." (harness resolvers derive their
+// natural values from the source tag, and the reuse history gives every execution its own root).
+func renameRoot(v abs.Value, tag string) abs.Value {
+	switch v.K {
+	case "str":
+		if strings.HasPrefix(v.V, tag) {
+			v.V = "r" + v.V[len(tag):]
+		}
+	case "list":
+		items := make([]abs.Value, len(v.Items))
+		for i, it := range v.Items {
+			items[i] = renameRoot(it, tag)
+		}
+		v.Items = items
+	case "obj":
+		fs := make([]abs.NV, len(v.Fields))
+		for i, f := range v.Fields {
+			fs[i] = abs.NV{N: f.N, V: renameRoot(f.V, tag)}
+		}
+		v.Fields = fs
+	}
+	return v
 }
 
 func sortStrings(s []string) []string { sort.Strings(s); return s }
